@@ -157,3 +157,42 @@ def rule_sibling_guard_agreement(ctx):
                 break
     r.floor(n, 1, "output-form dispatches with a per-arm norm correction")
     return r
+
+
+def rule_operator_orientation(ctx):
+    r = RuleResult(
+        "operator-orientation",
+        "where an expectation is contracted by hand — a ket tensor, its conjugate reindexed on the physical index "
+        "(`Tb = Tk.H.reindex({ket_ix: bra_ix})`) and the operator wrapped as Tensor(O, inds=(p, q)) — the operator's row index "
+        "must be the bra index and its column index the ket index (<psi|O|psi> = sum conj(psi_b) O[b, k] psi_k): with "
+        "(p, q) = (ket, bra) the contraction evaluates O transposed, which flips the sign of antisymmetric operators (S^y)",
+    )
+    n = 0
+    for modname in ("quimb.tensor.tn1d.core", "quimb.tensor.tnag.core", "quimb.tensor.tn2d.core", "quimb.tensor.tn3d.core"):
+        mod = ctx.prog.modules.get(modname)
+        for f in mod.all_functions:
+            if f.is_alias or isinstance(f.node, ast.Lambda):
+                continue
+            pair = None
+            for a in _own_walk(f.node):
+                if isinstance(a, ast.Call) and isinstance(a.func, ast.Attribute) and a.func.attr in ("reindex", "reindex_") and a.args and isinstance(a.args[0], ast.Dict) \
+                        and len(a.args[0].keys) == 1 and (".H" in src_of(a.func.value) or "conj()" in src_of(a.func.value)):
+                    pair = (src_of(a.args[0].keys[0]), src_of(a.args[0].values[0]))
+            if pair is None:
+                continue
+            ket, bra = pair
+            # resolve simple tuple-assigned names:  ind1, ind2 = self.site_ind(i), "__tmp__"
+            for c in _own_walk(f.node):
+                if isinstance(c, ast.Call) and getattr(c.func, "id", None) == "Tensor":
+                    inds = next((k.value for k in c.keywords if k.arg == "inds"), c.args[1] if len(c.args) > 1 else None)
+                    if isinstance(inds, (ast.Tuple, ast.List)) and len(inds.elts) == 2 and {src_of(e) for e in inds.elts} == {ket, bra}:
+                        n += 1
+                        got = (src_of(inds.elts[0]), src_of(inds.elts[1]))
+                        if got == (bra, ket):
+                            r.ok(f.qualname, sample={"function": f.qualname, "operator inds": got, "bra index": bra, "ket index": ket})
+                        else:
+                            r.bad(Finding("operator-orientation", f.qualname,
+                                          f"`{src_of(c)[:50]}`: the operator's row index is the ket index `{ket}` and its column index the bra index `{bra}`: the contraction "
+                                          "evaluates <psi|O^T|psi>", where=f"{f.module.relpath}:{c.lineno}", operand="transposed"))
+    r.floor(n, 1, "hand-contracted expectation values with an explicit operator tensor")
+    return r
